@@ -55,7 +55,7 @@ class ExcessColumnsInDataError(DataError):
         message = (
             f"Data did not pass validation checks; "
             f"Additional fields, not defined in the schema, were present in the record - "
-            + ", ".join(columns)
+            + ", ".join(str(column) for column in columns)
         )
         super().__init__(message)
 
